@@ -282,111 +282,111 @@ package meta
 //@ func (*CleanSchema).Clone
 //@   trusted deep copy of the schema map
 //@   ensures (result == nil) == (cs == nil)
-//@   trusted_assigns nothing
+//@   assigns nothing
 
 //@ func (*MeasurementInfo).CloneSchema
 //@   trusted takes the schema lock and calls CleanSchema.Clone
 //@   ensures (result == nil) == (msti.Schema == nil)
 //@   ensures result != nil ==> result != msti.Schema
-//@   trusted_assigns nothing
+//@   assigns nothing
 
 //@ func (*MeasurementInfo).CloneShardIdexes
 //@   requires msti != nil
 //@   ensures (result == nil) == (msti.ShardIdexes == nil)
 //@   ensures result != nil ==> fresh(result)
-//@   trusted_assigns nothing
+//@   assigns nothing
 
 //@ func ShardKeyInfo.clone
 //@   carries ski -> result
-//@   trusted_assigns nothing
+//@   assigns nothing
 
 //@ func (*MeasurementInfo).clone
 //@   requires msti != nil
 //@   ensures result != nil && fresh(result)
 //@   carries msti -> result except SchemaLock(a lock is not catalogue state), IndexRelation(struct of slices copied by value: shared backing arrays, not decided)
-//@   trusted_assigns nothing
+//@   assigns nothing
 
 //@ func ShardOwner.clone
 //@   carries so -> result
-//@   trusted_assigns nothing
+//@   assigns nothing
 
 //@ func ShardInfo.clone
 //@   carries si -> result
-//@   trusted_assigns nothing
+//@   assigns nothing
 
 //@ func IndexInfo.clone
 //@   carries ii -> result
-//@   trusted_assigns nothing
+//@   assigns nothing
 
 //@ func ShardGroupInfo.clone
 //@   carries sgi -> result
-//@   trusted_assigns nothing
+//@   assigns nothing
 
 //@ func IndexGroupInfo.clone
 //@   carries igi -> result shared ClearInfo(pointer copied by the struct copy: aliased, not decided)
-//@   trusted_assigns nothing
+//@   assigns nothing
 
 //@ func UserInfo.clone
 //@   carries u -> result
-//@   trusted_assigns nothing
+//@   assigns nothing
 
 //@ func MeasurementVer.clone
 //@   ensures result != nil && fresh(result)
 //@   carries mstv -> result
-//@   trusted_assigns nothing
+//@   assigns nothing
 
 //@ func RetentionPolicyInfo.Clone
 //@   ensures result != nil && fresh(result)
 //@   carries rpi -> result shared Subscriptions(aliased by the clone; mutated in place by DropSubscription: snapshot race not decided), DownSamplePolicyInfo(aliased by the clone: not decided)
-//@   trusted_assigns nothing
+//@   assigns nothing
 
 //@ func ContinuousQueryInfo.Clone
 //@   ensures result != nil && fresh(result)
 //@   carries cqi -> result
-//@   trusted_assigns nothing
+//@   assigns nothing
 
 //@ func DatabaseInfo.clone
 //@   ensures result != nil && fresh(result)
 //@   carries di -> result shared ObsOptions(aliased by the clone: not decided)
-//@   trusted_assigns nothing
+//@   assigns nothing
 
 // ---- Data.Clone: the snapshot of the whole catalogue
 //@ func StreamInfo.clone
 //@   ensures result != nil && fresh(result)
 //@   trusted_assigns nothing
 //@ func (*MigrateEventInfo).Clone
-//@   trusted_assigns nothing
+//@   assigns nothing
 //@ func NodeInfo.clone
 //@   carries ni -> result
-//@   trusted_assigns nothing
+//@   assigns nothing
 //@ func (*Data).CloneDatabases
 //@   requires data != nil
 //@   ensures (result == nil) == (data.Databases == nil)
 //@   ensures result != nil ==> fresh(result)
-//@   trusted_assigns nothing
+//@   assigns nothing
 //@ func (*Data).CloneStreams
 //@   requires data != nil
 //@   ensures (result == nil) == (data.Streams == nil)
 //@   ensures result != nil ==> fresh(result)
-//@   trusted_assigns nothing
+//@   assigns nothing
 //@ func (*Data).CloneDataNodes
 //@   ensures data != nil ==> len(result) == len(data.DataNodes)
 //@   ensures fresh(result)
-//@   trusted_assigns nothing
+//@   assigns nothing
 //@ func (*Data).CloneSqlNodes
 //@   ensures data != nil ==> len(result) == len(data.SqlNodes)
 //@   ensures fresh(result)
-//@   trusted_assigns nothing
+//@   assigns nothing
 //@ func (*Data).CloneMetaNodes
 //@   requires data != nil
 //@   ensures len(result) == len(data.MetaNodes)
 //@   ensures fresh(result)
-//@   trusted_assigns nothing
+//@   assigns nothing
 //@ func (*Data).CloneQueryIDInit
 //@   requires data != nil
 //@   ensures (result == nil) == (data.QueryIDInit == nil)
 //@   ensures result != nil ==> fresh(result)
-//@   trusted_assigns nothing
+//@   assigns nothing
 //@ func (*Data).CloneDBPtView
 //@   requires data != nil
 //@   ensures (result == nil) == (data.PtView == nil)
@@ -396,18 +396,18 @@ package meta
 //@   requires data != nil
 //@   ensures len(result) == len(data.Users)
 //@   ensures fresh(result)
-//@   trusted_assigns nothing
+//@   assigns nothing
 //@ func (*Data).CloneMigrateEvents
 //@   requires data != nil
 //@   ensures (result == nil) == (data.MigrateEvents == nil)
 //@   ensures result != nil ==> fresh(result)
-//@   trusted_assigns nothing
+//@   assigns nothing
 
 //@ func (*Data).Clone
 //@   requires data != nil
 //@   ensures result != nil && fresh(result)
 //@   carries data -> result except opsMapMu(a lock is not catalogue state) shared OpsMap(operation log shared with the live catalogue by design of incremental sync: not decided), SQLite(handle to the external sqlite wrapper)
-//@   trusted_assigns nothing
+//@   assigns nothing
 //@ func (*Data).CloneReplicaGroups
 //@   requires data != nil
 //@   ensures (result == nil) == (data.ReplicaGroups == nil)
@@ -443,11 +443,11 @@ package meta
 //@     requires arg1 == name
 
 //@ func (*Data).CheckStreamExistInDatabase
-//@   trusted_assigns nothing
+//@   assigns nothing
 //@ func (*Data).CheckStreamExistInRetention
-//@   trusted_assigns nothing
+//@   assigns nothing
 //@ func (*Data).CheckStreamExistInMst
-//@   trusted_assigns nothing
+//@   assigns nothing
 //@ func (*Data).checkMigrateConflict
 //@   trusted_assigns nothing
 
@@ -611,7 +611,7 @@ package meta
 //@     invariant msti == nil && (forall k string :: visited(k) ==> origin(rpi.Measurements[k].Name) == mstName)
 //@ func ErrShardingTypeNotEqual
 //@   ensures result != nil
-//@   trusted_assigns nothing
+//@   assigns nothing
 
 // ================================================================ C15: snapshot (marshal side)
 //@ prop C15
